@@ -13,6 +13,9 @@ from elexmodel.logger import getModelLogger
 from elexmodel.models import BaseElectionModel
 
 warnings.filterwarnings("error", category=UserWarning, module="cvxpy")
+# newer cvxpy versions attribute their warnings to the first frame outside of cvxpy (the solver package),
+# so the module filter above does not see them anymore
+warnings.filterwarnings("error", category=UserWarning, message="Solution may be inaccurate")
 
 PredictionIntervals = namedtuple("PredictionIntervals", ["lower", "upper", "conformalization"], defaults=(None,) * 3)
 
